@@ -385,9 +385,11 @@ VerdictOf ==
     C07 |-> {"report_seed", "seed_replay_differs", "seed_run_differs", "repro_seed"},
     C09 |-> {"gen_after_failure", "gen_beyond_budget", "vacuous_pass", "pass_count", "no_failnow", "stopped_early",
              "onlygen_despite_enough", "extra_invocations", "gen_before_failfiles", "ff_not_found", "pass_without_verdict",
-             "failed_without_report", "onlygen_count", "ret_budget", "early_exit_without_deadline", "early_exit_too_early"},
+             "failed_without_report", "onlygen_count", "ret_budget", "early_exit_without_deadline", "early_exit_too_early",
+             "skip_misjudged"},   \* (a skipped test case counted as a valid one, or the other way round)
     C11 |-> {"phantom_failure", "lost_failure", "reported_failure_never_happened", "flaky_report", "skip_misjudged",
-             "label_carried_over", "failure_message", "dead_context_in_body", "context_outlives_case"},
+             "label_carried_over", "failure_message", "dead_context_in_body", "context_outlives_case",
+             "final_replay_passes"},   \* (the test case finally presented as falsifying is one in which nothing fails)
     C17 |-> {"ff_ignored_silently", "ff_changed_verdict", "ff_changed_cases", "ff_after_failure", "ff_order", "unusable_file_used",
              "check_crashed", "ff_phantom_failure", "ff_not_found"} ]   \* (an unusable file must not hide a usable one either)
 =============================================================================
